@@ -12,7 +12,7 @@ nviol=[x for x in res if x.strip().isdigit()]
 viol=[x.strip()[:400] for x in res if x.strip().startswith('violation')][:3]
 meta={
  "property": pid,
- "wave": 2 if name.endswith('_w2') else 1,
+ "wave": int(name.split("_w")[1]) if "_w" in name else 1,
  "change": ag.get('summary'),
  "needs_to_manifest": ag.get('needs_to_manifest'),
  "why_existing_tests_pass": ag.get('why_tests_pass'),
